@@ -106,36 +106,46 @@ def checkDotNorm : Rd Verdict := do
 
 /-- preconditioned CG: reported history against the same quantity recomputed from the true residuals -/
 def checkPcg : Rd Verdict := do
-  let np ← rdNat; let solver ← rdNat; let n ← rdNat; let tolB ← rdInt; let maxit ← rdNat; let bInnerB ← rdInt
+  let np ← rdNat; let solverV ← rdNat; let n ← rdNat; let tolB ← rdInt; let maxit ← rdNat; let bInnerB ← rdInt
   let full ← rdVec; let truev ← rdVec; let prefixOk ← rdVec
+  let solver := solverV % 10; let variant := solverV / 10
   let tol := bitsToFloat tolB; let bInner := bitsToFloat bInnerB
   let rep := full.map bitsToFloat; let tr := truev.map bitsToFloat
   let iters := rep.length - 1
+  let vName := match variant with | 0 => "random" | 1 => "zero_rhs" | 2 => "exact_start" | _ => "scaled"
   let base := "C17/par/pcg"
-  let feats := ["pcg", s!"np{np}", if solver == 0 then "RS" else "SA", if iters ≥ 8 then "crosses_recompute" else "short",
+  let feats := ["pcg", s!"np{np}", if solver == 0 then "RS" else "SA", vName, if iters ≥ 8 then "crosses_recompute" else "short",
                 if iters < maxit then "converged" else "limit"] ++ (if n ≤ 1 then ["trivial"] else [])
   if rep.isEmpty || tr.length != rep.length then return specFail (base ++ "/spec/history_length") s!"reported {rep.length} entries, {tr.length} iterates" feats
   if iters > maxit then return specFail (base ++ "/spec/too_many_iterations") s!"{iters} > {maxit}" feats
+  -- nothing non-finite on this domain (SPD system, SPD preconditioner): in particular not for b = 0 or an exact start
+  if rep.any (fun v => !v.isFinite) || tr.any (fun v => !v.isFinite) then
+    return specFail (base ++ s!"/spec/nonfinite/{vName}") s!"reported {showF rep}, (r_k, M r_k) of the returned iterates {showF tr}" feats
   -- a run limited to k iterations reports the first k+1 entries of the full run (the solver is a pure function)
   if prefixOk.any (· == 0) then return specFail (base ++ "/spec/history_not_prefix") s!"prefix flags {showList prefixOk}" feats
-  let close (a b : Float) : Bool := (a - b).abs ≤ 1e-6 * (a.abs + b.abs) + 1e-13 * (tr.getD 0 0).abs / bInner.abs
+  -- residuals are reported relative to (b, M b); a zero right-hand side has no relative residual (absolute then)
+  let scale := if bInner > 0 then bInner else 1.0
+  let close (a b : Float) : Bool := (a - b).abs ≤ 1e-6 * (a.abs + b.abs) + 1e-13 * (tr.getD 0 0).abs / scale
   -- entries k ≥ 1 are (r_k, M r_k)/(b, M b); the iterate returned after k iterations is the one entry k belongs to
   for k in List.range (iters + 1) do
     if k ≥ 1 then
-      let want := tr.getD k 0 / bInner
+      let want := tr.getD k 0 / scale
       if !close (rep.getD k 0) want then
         return specFail (base ++ "/spec/reported_vs_true") s!"iterate {k}: reported {rep.getD k 0}, (b-Ax_k, M(b-Ax_k))/(b,Mb) = {want}" feats
   -- the first entry is reported in the scaling of the others
-  let want0 := tr.getD 0 0 / bInner
+  let want0 := tr.getD 0 0 / scale
   if !close (rep.getD 0 0) want0 then
     return specFail (base ++ "/spec/first_entry_scaling") s!"res[0] = {rep.getD 0 0}; in the scaling of the later entries (r_0, M r_0)/(b, M b) = {want0} (sqrt(r_0, M r_0) = {(tr.getD 0 0).sqrt})" feats
-  -- stop rule as implemented: (r_k, M r_k) < tol * sqrt(b, M b); stops at the first such k or at the limit
-  let thr := tol * bInner.sqrt
-  let met (k : Nat) : Bool := rep.getD k 0 * bInner < thr
+  -- stop rule: the first iterate (the start included) with ‖r_k‖_M ≤ tol·‖b‖_M (absolute for b = 0), or the limit; both sides
+  -- in the same norm, so that scaling the system does not change the iteration count
+  let thr := if bInner > 0 then tol * bInner.sqrt else tol
+  let rn (k : Nat) : Float := (rep.getD k 0 * scale).sqrt
+  let borderline (k : Nat) : Bool := (rn k - thr).abs ≤ 1e-6 * thr
   for k in List.range iters do
-    if k ≥ 1 && met k then return specFail (base ++ "/spec/continued_after_convergence") s!"entry {k} already met the tolerance, {iters} iterations done" feats
-  if iters < maxit && !(met iters) then
-    return specFail (base ++ "/spec/stopped_early") s!"stopped after {iters} < {maxit} iterations with (r,Mr) = {rep.getD iters 0 * bInner} ≥ {thr}" feats
+    if rn k < thr && !borderline k then
+      return specFail (base ++ "/spec/continued_after_convergence") s!"entry {k} already met the tolerance (‖r‖_M = {rn k} < {thr}), {iters} iterations done" feats
+  if iters < maxit && !(rn iters ≤ thr) && !borderline iters then
+    return specFail (base ++ "/spec/stopped_early") s!"stopped after {iters} < {maxit} iterations with ‖r‖_M = {rn iters} > tol·‖b‖_M = {thr}" feats
   return ok feats
 
 def run (op : String) (a : Array Int) : Verdict :=
